@@ -66,26 +66,27 @@ private:
     }
 };
 
-// although iterator_adaptor defines these, the default implementation computes distance and compares for zero.
-// it is often faster to just apply the relation operator to the base
+// The relation is decided by the signed distance in steps. Comparing the base iterators instead is wrong
+// when the base is itself a step iterator with a negative step (e.g. the y iterator of a left-right flipped view),
+// because the base's own relational operators are then reversed w.r.t. memory order.
 template <typename D,typename Iterator,typename SFn> inline
 bool operator>(const step_iterator_adaptor<D,Iterator,SFn>& p1, const step_iterator_adaptor<D,Iterator,SFn>& p2) {
-    return p1.step()>0 ? p1.base()> p2.base() : p1.base()< p2.base();
+    return static_cast<D const&>(p1) - static_cast<D const&>(p2) > 0;
 }
 
 template <typename D,typename Iterator,typename SFn> inline
 bool operator<(const step_iterator_adaptor<D,Iterator,SFn>& p1, const step_iterator_adaptor<D,Iterator,SFn>& p2) {
-    return p1.step()>0 ? p1.base()< p2.base() : p1.base()> p2.base();
+    return static_cast<D const&>(p1) - static_cast<D const&>(p2) < 0;
 }
 
 template <typename D,typename Iterator,typename SFn> inline
 bool operator>=(const step_iterator_adaptor<D,Iterator,SFn>& p1, const step_iterator_adaptor<D,Iterator,SFn>& p2) {
-    return p1.step()>0 ? p1.base()>=p2.base() : p1.base()<=p2.base();
+    return static_cast<D const&>(p1) - static_cast<D const&>(p2) >= 0;
 }
 
 template <typename D,typename Iterator,typename SFn> inline
 bool operator<=(const step_iterator_adaptor<D,Iterator,SFn>& p1, const step_iterator_adaptor<D,Iterator,SFn>& p2) {
-    return p1.step()>0 ? p1.base()<=p2.base() : p1.base()>=p2.base();
+    return static_cast<D const&>(p1) - static_cast<D const&>(p2) <= 0;
 }
 
 template <typename D,typename Iterator,typename SFn> inline
